@@ -59,7 +59,7 @@ class List(Expression):
             out += STATUS << True
             return
 
-        LEN = Code('len')
+        LEN = Code('_len')
         staging = out.var('staging', [])
 
         # A bound that is only known at run time may be zero, so it has to be
